@@ -17,8 +17,9 @@ class RequestStreamRequester(StreamHandler, DefaultPublisherSubscription, Reques
         pass
 
     def subscribe(self, subscriber: Subscriber):
-        super().subscribe(subscriber)
+        # the request frame is queued first: a subscriber may call request(n) or cancel() from inside on_subscribe
         self._send_stream_request(self.payload)
+        super().subscribe(subscriber)
 
     def cancel(self):
         self.send_cancel()
